@@ -242,7 +242,7 @@ theorem mem_sortStrs (l : List Str) (x : Str) : x ∈ sortStrs l ↔ x ∈ l := 
     exact ⟨(x, ()), (mem_sortByKey _ _).mpr (List.mem_map.mpr ⟨x, h, rfl⟩), rfl⟩
 
 theorem reads_eq (S : Schema V) (e : Elem V) (o : Obj V) (a : Args) (hx : Exclusive a) :
-    (setByObject S e o a).reads = candidates S.fields a := by
+    (setByObject S e o a).reads = candidates (effFields S e) a := by
   have hb : (!a.inc.isEmpty && !a.om.isEmpty) = false := by
     cases hb : (!a.inc.isEmpty && !a.om.isEmpty) with
     | false => rfl
@@ -319,13 +319,13 @@ def C20_Full : Prop :=
     the object are exactly the declared field names and the names the renaming maps to a declared
     field, minus the omitted ones. -/
 theorem set_by_object_reads_partial (S : Schema V) (e : Elem V) (o : Obj V) (a : Args)
-    (hx : Exclusive a) (hp : PlainRename S.fields a.ren) (x : Str) :
-    x ∈ (setByObject S e o a).reads ↔ readSet S.fields a x := by
+    (hx : Exclusive a) (hp : PlainRename (effFields S e) a.ren) (x : Str) :
+    x ∈ (setByObject S e o a).reads ↔ readSet (effFields S e) a x := by
   rw [reads_eq S e o a hx, candidates, mem_sortStrs, List.mem_filter,
-    mem_growAttrs S.fields (a.ren.map (·.1)) a.ren S.fields (fun _ h => h) (fun _ h => Or.inl h)
+    mem_growAttrs (effFields S e) (a.ren.map (·.1)) a.ren (effFields S e) (fun _ h => h) (fun _ h => Or.inl h)
       (fun p hp' => List.mem_map_of_mem (f := (·.1)) hp') hp.2]
   unfold readSet renameTo
-  have hmap : (∃ f, (x, f) ∈ a.ren ∧ f ∈ S.fields) ↔ ∃ f, dictGet a.ren x = some f ∧ f ∈ S.fields := by
+  have hmap : (∃ f, (x, f) ∈ a.ren ∧ f ∈ effFields S e) ↔ ∃ f, dictGet a.ren x = some f ∧ f ∈ effFields S e := by
     constructor
     · rintro ⟨f, hm, hf⟩; exact ⟨f, dictGet_of_nodup a.ren hp.1 x f hm, hf⟩
     · rintro ⟨f, hd, hf⟩; exact ⟨f, dictGet_mem a.ren x f hd, hf⟩
@@ -385,7 +385,8 @@ def finalOf (S : Schema V) (o : Obj V) (a : Args) : List (Str × V) :=
   dictOf (((readable o (candidates S.fields a)).filterMap
     (fun p => (outKey { a with key := none } p.1).map (·, p.2))).filter fun p => S.fields.contains p.1)
 
-theorem setByObject_ok (S : Schema V) (e : Elem V) (o : Obj V) (a : Args) (hx : Exclusive a) :
+theorem setByObject_ok (S : Schema V) (e : Elem V) (o : Obj V) (a : Args) (hx : Exclusive a)
+    (hs : S.sparse = false) :
     setByObject S e o a =
       ⟨candidates S.fields a, (dictSetValue S (finalOf S o a)).1, (dictSetValue S (finalOf S o a)).2⟩ := by
   have hb : (!a.inc.isEmpty && !a.om.isEmpty) = false := by
@@ -393,7 +394,7 @@ theorem setByObject_ok (S : Schema V) (e : Elem V) (o : Obj V) (a : Args) (hx : 
     | false => rfl
     | true => exact absurd hx ((not_exclusive_iff a).mpr hb)
   have hx' : Exclusive { a with key := none } := hx
-  simp only [setByObject, hb, Bool.false_eq_true, if_false, keyslicePairs_ok _ hx', finalOf]
+  simp only [setByObject, effFields, hs, hb, Bool.false_eq_true, if_false, keyslicePairs_ok _ hx', finalOf]
 
 /-- which pairs `Dict.set` receives for a key: values of readable candidate attributes landing on it -/
 theorem finalOf_lookup_mem (S : Schema V) (o : Obj V) (a : Args) (n : Str) (hn : n ∈ S.fields) (w : V) :
@@ -409,13 +410,14 @@ theorem finalOf_lookup_mem (S : Schema V) (o : Obj V) (a : Args) (n : Str) (hn :
   · rintro ⟨x, hxc, hg, hox⟩
     exact ⟨⟨x, ⟨x, hxc, w, hg, rfl, rfl⟩, hox⟩, by simpa using hn⟩
 
-theorem dictSetValue_nonstrict (S : Schema V) (final : List (Str × V)) (hpol : S.policy ≠ .strict) :
+theorem dictSetValue_nonstrict (S : Schema V) (final : List (Str × V)) (hpol : S.policy ≠ .strict)
+    (hs : S.sparse = false) :
     dictSetValue S final = (none, S.fields.map fun f => (f, match lookup final f with
                                                             | some x => S.setF f x
                                                             | none => S.blank)) := by
   have hpol' : (S.policy == Policy.strict) = false := by
     cases hp : S.policy <;> simp_all
-  simp [dictSetValue, hpol']
+  simp [dictSetValue, hpol', hs]
   intro f _
   cases lookup final f <;> rfl
 
@@ -493,14 +495,14 @@ def IsAttrWinner (S : Schema V) (o : Obj V) (a : Args) (f x : Str) (v : V) : Pro
     the value `v` of the attribute that maps to it (the greatest attribute name when several do),
     and is blank when no readable candidate attribute maps to it. -/
 theorem set_by_object_values (S : Schema V) (e : Elem V) (o : Obj V) (a : Args) (hx : Exclusive a)
-    (hf : S.fields.Nodup) (hpol : S.policy ≠ .strict) :
+    (hf : S.fields.Nodup) (hpol : S.policy ≠ .strict) (hs : S.sparse = false) :
     (setByObject S e o a).exc = none ∧
     ∃ val : Str → Option V,
       (setByObject S e o a).elem = S.fields.map (fun f => (f, match val f with
                                                               | some v => S.setF f v
                                                               | none => S.blank)) ∧
       ∀ f ∈ S.fields, ∀ v, val f = some v ↔ ∃ x, IsAttrWinner S o a f x v := by
-  rw [setByObject_ok S e o a hx, dictSetValue_nonstrict S _ hpol]
+  rw [setByObject_ok S e o a hx hs, dictSetValue_nonstrict S _ hpol hs]
   refine ⟨rfl, fun f => lookup (finalOf S o a) f, rfl, ?_⟩
   intro f hfm v
   show lookup (finalOf S o a) f = some v ↔ _
@@ -526,7 +528,7 @@ theorem object_roundtrip (S : Schema V) (e : Elem V) (o : Obj V) (a : Args)
     (hsrcN : (a.ren.map (·.1)).Nodup) (htgtN : (a.ren.map (·.2)).Nodup)
     (hsrcF : ∀ p ∈ a.ren, p.1 ∈ S.fields) (htgtF : ∀ p ∈ a.ren, p.2 ∉ S.fields)
     (hfresh : ∀ x, (x ∈ S.fields ∨ x ∈ a.ren.map (·.2)) → o.get x = none)
-    (hpol : S.policy ≠ .strict) :
+    (hpol : S.policy ≠ .strict) (hs : S.sparse = false) :
     ∃ o', updateObject e o a = .ok o' ∧
       (setByObject S (S.fields.map (·, S.blank)) o' (inverseArgs a)).exc = none ∧
       (setByObject S (S.fields.map (·, S.blank)) o' (inverseArgs a)).elem =
@@ -704,7 +706,7 @@ theorem object_roundtrip (S : Schema V) (e : Elem V) (o : Obj V) (a : Args)
       intro w hw
       obtain ⟨x, hxc, hg, hox⟩ := (finalOf_lookup_mem S o' a2 n (hmemF _ hp) w).mp hw
       exact hmoved (hfinal n v hp x w ((hcand x).mp hxc) hg hox).2
-  rw [setByObject_ok S _ o' a2 hx2, dictSetValue_nonstrict S _ hpol]
+  rw [setByObject_ok S _ o' a2 hx2 hs, dictSetValue_nonstrict S _ hpol hs]
   refine ⟨rfl, ?_⟩
   refine (congrArg (List.map _) he.symm).trans ?_
   simp only [keys, List.map_map]
@@ -737,7 +739,24 @@ example :
         decide
       have h' : ¬ ("q".toList = x) := fun h => this h.symm
       simp only [Obj.get, h', if_false])
-    (by decide)
+    (by decide) rfl
   exact ⟨o', h1, by rw [h3]; rfl⟩
+
+/-! ### SparseDict -/
+
+/-- the clause "reads exactly the attributes that map to declared fields" with *declared* fields,
+    for every Dict subtype -/
+def C20_Full_sparse : Prop :=
+  ∀ (S : Schema Unit) (e : Elem Unit) (o : Obj Unit) (a : Args), Exclusive a → PlainRename S.fields a.ren →
+    ∀ x, x ∈ (setByObject S e o a).reads ↔ readSet S.fields a x
+
+/-- KF-C20-b: a SparseDict takes `set(self.keys())` — the members that exist — for its fields, so
+    a fresh SparseDict with the declared field `a` reads nothing from the object -/
+theorem C20_sparse_fails : ¬ C20_Full_sparse := by
+  intro h
+  have := (h { fields := ["a".toList], blank := (), setF := fun _ _ => (), sparse := true } [] [] {}
+    (Or.inl rfl) (by decide) "a".toList).mpr (by unfold readSet renameTo; decide)
+  revert this
+  decide
 
 end Flatland.C20.Proofs
